@@ -19,7 +19,7 @@ Theorem C17_gate_sound_modulo_known : forall (bh : behav) (p : profile) (d : doc
 Proof. exact gate_sound_modulo_known. Qed.
 Print Assumptions C17_gate_sound_modulo_known.
 
-(* with D17, D18, D19 and D35 repaired no class is left: the full statement *)
+(* with D17, D18, D19, D35 and D61 repaired no class is left: the full statement *)
 Theorem C17_gate_sound_repaired : forall (p : profile) (d : document) (f : flags) (c : config),
   gate_check repaired p d f = Accept c -> in_domain c = true.
 Proof. exact gate_sound_repaired. Qed.
@@ -60,6 +60,24 @@ Theorem C17_refuted_cli_after_validation :
   gate_check repaired Release (DocConfig default_config) (with_flags None (Some bits_nan) None) = Reject RContentWarnThreshold 0 0.
 Proof. repeat split; try (eexists; repeat split); vm_compute; reflexivity. Qed.
 Print Assumptions C17_refuted_cli_after_validation.
+
+(* D61: impossible (2025-02-31) and non-canonical (+2025-2-3) dates passed the lenient parser of expires.rs *)
+Theorem C17_refuted_lenient_date :
+  (exists c, gate_check pre_d61 Debug (DocConfig doc_feb31) no_flags = Accept c /\ in_domain c = false /\ k_lenient_date pre_d61 c = true) /\
+  (exists c, gate_check pre_d61 Debug (DocConfig doc_plus_date) no_flags = Accept c /\ in_domain c = false /\ k_lenient_date pre_d61 c = true) /\
+  gate_check repaired Debug (DocConfig doc_feb31) no_flags = Reject RContentRuleExpires 0 0 /\
+  gate_check repaired Debug (DocConfig doc_plus_date) no_flags = Reject RContentRuleExpires 0 0.
+Proof. repeat split; try (eexists; repeat split); vm_compute; reflexivity. Qed.
+Print Assumptions C17_refuted_lenient_date.
+
+(* the calendar of the domain: 2024-02-29 and 2000-02-29 exist, 2025-02-29 and 1900-02-29 do not, 04-31 never *)
+Example C17_date_calendar :
+  date_strict [50;48;50;52;45;48;50;45;50;57] = true /\ date_strict [50;48;48;48;45;48;50;45;50;57] = true /\
+  date_strict [50;48;50;53;45;48;50;45;50;57] = false /\ date_strict [49;57;48;48;45;48;50;45;50;57] = false /\
+  date_strict [50;48;50;53;45;48;52;45;51;49] = false /\ date_strict [50;48;50;53;45;49;50;45;51;49] = true /\
+  date_valid s_feb31 = true /\ date_valid s_plus_unpadded = true.
+Proof. repeat split; vm_compute; reflexivity. Qed.
+Print Assumptions C17_date_calendar.
 
 (* ---- D18: config validate accepts exactly what check accepts *)
 
